@@ -55,11 +55,10 @@ Proof.
   cbn [app]. repeat (rewrite <- app_assoc; cbn [app]). reflexivity.
 Qed.
 
-Lemma nt_load_rendered : forall q, wf_quad q = true -> is_default q = true -> known_dd_quad q = false ->
+Lemma nt_load_rendered : forall q, wf_quad q = true -> is_default q = true ->
   nt_load_line (nt_core q ++ [cSP; cDOT]) = [q].
 Proof.
-  intros q Hwf Hdef Hdd.
-  unfold known_dd_quad in Hdd. apply orb_false_iff in Hdd as [Hdd Hdo]. apply orb_false_iff in Hdd as [Hds Hdp].
+  intros q Hwf Hdef.
   unfold wf_quad in Hwf. apply andb_true_iff in Hwf as [Hwf Hwg]. apply andb_true_iff in Hwf as [Hwf Hwo].
   apply andb_true_iff in Hwf as [Hws Hwp].
   pose proof (nt_subj_rterm _ Hws) as HS. pose proof (RT_angle _ (wf_iri_chars _ Hwp)) as HP.
@@ -69,18 +68,17 @@ Proof.
   unfold nt_parse_line, nt_core. rewrite (core_parts _ _ _ None _ _ _ None HS HP HO I).
   rewrite (clean_nt_rterm _ _ HS), (clean_nt_rterm _ _ HP), (clean_nt_rterm _ _ HO).
   replace (str_eqb (angle (qd_p q)) [97]) with false by reflexivity.
-  rewrite ets_subj, ets_iri, ets_obj by assumption.
+  rewrite (ect_plain (qd_s q)) by (now destruct (wf_subj_not_qt _ Hws)).
+  rewrite (ect_plain (qd_p q)) by (now apply iri_prefix).
+  rewrite (ect_plain (qd_o q)) by (now apply wf_obj_not_qt).
   destruct q as [[[s p] o] g]. unfold is_default, qd_g in Hdef. cbn [snd] in Hdef. destruct g; [discriminate|]. reflexivity.
 Qed.
 
-Lemma nt_roundtrip_list : forall db, wf_db db = true -> known_dd db = false -> load_nt (gen_nt db) = default_part db.
+Lemma nt_roundtrip_list : forall db, wf_db db = true -> load_nt (gen_nt db) = default_part db.
 Proof.
-  intros db Hwf Hdd. unfold load_nt, gen_nt.
+  intros db Hwf. unfold load_nt, gen_nt.
   rewrite (flat_map_ext _ (fun q => (nt_core q ++ [cSP; cDOT]) ++ [cLF])) by (intro; apply nt_line_core).
   unfold wf_db in Hwf. rewrite forallb_forall in Hwf.
-  assert (Hk : forall q, In q db -> known_dd_quad q = false).
-  { intros q Hq. unfold known_dd in Hdd. destruct (known_dd_quad q) eqn:E; [|reflexivity].
-    assert (existsb known_dd_quad db = true) by (apply existsb_exists; now exists q). congruence. }
   assert (Hin : forall q, In q (default_part db) -> In q db /\ is_default q = true).
   { intros q Hq. unfold default_part in Hq. now apply filter_In in Hq. }
   rewrite lines_flat_map.
@@ -95,9 +93,8 @@ Proof.
     + exact I.
 Qed.
 
-Lemma nt_roundtrip : forall db, wf_db db = true -> known_dd db = false ->
-  same_set (load_nt (gen_nt db)) (default_part db).
-Proof. intros db H1 H2 q. now rewrite nt_roundtrip_list. Qed.
+Lemma nt_roundtrip : forall db, wf_db db = true -> same_set (load_nt (gen_nt db)) (default_part db).
+Proof. intros db H1 q. now rewrite nt_roundtrip_list. Qed.
 
 (* ---- the double-decoding class is real ------------------------------------------------------------------------------------------------ *)
 Lemma quad_eqb_refl : forall q, quad_eqb q q = true.
@@ -115,15 +112,24 @@ Qed.
 Definition dd_witness : list quad :=
   [([104;116;116;112;58;47;47;97;47;115], [104;116;116;112;58;47;47;97;47;112], [cDQ], None)].
 
-Lemma dd_refuted_nq : wf_db dd_witness = true /\ known_dd dd_witness = true /\ ~ same_set (load_nq (gen_nq dd_witness)) dd_witness.
-Proof.
-  split; [vm_compute; reflexivity|split; [vm_compute; reflexivity|]]. intro H.
-  apply same_set_subsetb in H. vm_compute in H. discriminate.
-Qed.
+(* regression (commit 16f77b9): before the repair the line loaders sent the decoded value through encode_term_star
+   again (`ets`); that variant loses the one-character literal consisting of a double quote, the repaired one keeps it *)
+Definition nq_load_line_old (raw : str) : list quad :=
+  let line := trim raw in
+  if is_comment_or_empty line then []
+  else if ends_with [cDOT] line then
+    match nq_parse_line (trim (removelast line)) with
+    | Some (s, p, o, g) => [(ets s, ets p, ets o, g)]
+    | None => []
+    end
+  else [].
+Definition load_nq_old (text : str) : list quad := flat_map nq_load_line_old (lines text).
 
-Lemma dd_refuted_nt : wf_db dd_witness = true /\ known_dd dd_witness = true /\
-  ~ same_set (load_nt (gen_nt dd_witness)) (default_part dd_witness).
+Lemma dd_regression_nq :
+  wf_db dd_witness = true /\ known_dd dd_witness = true /\
+  ~ same_set (load_nq_old (gen_nq dd_witness)) dd_witness /\ load_nq (gen_nq dd_witness) = dd_witness /\
+  load_nt (gen_nt dd_witness) = dd_witness.
 Proof.
-  split; [vm_compute; reflexivity|split; [vm_compute; reflexivity|]]. intro H.
-  apply same_set_subsetb in H. vm_compute in H. discriminate.
+  split; [vm_compute; reflexivity|split; [vm_compute; reflexivity|split; [|split; vm_compute; reflexivity]]].
+  intro H. apply same_set_subsetb in H. vm_compute in H. discriminate.
 Qed.
